@@ -415,6 +415,11 @@ func c13Pipes() []c13Pipe {
 		{"variadic strings", "s | joinall('a', 'b')", "ahellob", ""}, {"string digits to int", "digits | double", "42", ""}, {"int to string param", "n | strict", "<7>", ""},
 		{"quoted double", `s | repeat("2")`, "hellohello", ""}, {"direct call", "double(n)", "14", ""}, {"direct call 2 args", "add(n, m)", "10", ""}, {"direct then pipe", "double(n) | add(1)", "15", ""},
 		{"uint8 param", "m | u8", "4", ""},
+		// quoted arguments are string literals: the text between the quotes, also when it spells a variable name, a number, a boolean, or nothing
+		{"quoted arg naming a variable", `e | default("s")`, "s", ""}, {"quoted arg naming a variable, single quotes", `e | default('t')`, "t", ""},
+		{"empty string arg", `s | default('') | upper`, "HELLO", ""}, {"empty string arg used", `e | default("") | strict`, "<>", ""},
+		{"quoted digits stay text", `e | default("007") | strict`, "<007>", ""}, {"quoted boolean stays text", `e | default("true") | strict`, "<true>", ""},
+		{"quoted arg with comma", `e | default("a, b") | upper`, "A, B", ""}, {"unquoted arg is the variable", `e | default(s)`, "hello", ""},
 		{"unknown function", "s | nosuch", "", "nosuch"}, {"unknown in chain", "s | upper | nosuch2 | lower", "", "nosuch2"}, {"too many args", "n | double(1)", "", "double"}, {"too few args", "n | add", "", "add"},
 		{"impossible conversion", "lst | double", "", "double"}, {"non numeric string", "s | double", "", "double"}, {"function error", "s | fail", "", "fail"}, {"function error text", "s | fail", "", "boom-hello"},
 		{"direct unknown", "nosuch3(n)", "", "nosuch3"},
@@ -539,7 +544,7 @@ func runC13(r *Run, replay *Case) {
 	c13TypeAlternation(r)
 	// built-in-only pipe chains: real engine vs the Lean pipe interpreter (parsePipeExpr / evalPipe / callBuiltin), byte for byte
 	heads := []string{"s", "t", "e", "n", "lst", "obj.k", "st.Y", "missing", "'lit'", "upper(s)", "len(lst)", "digits"}
-	segs := []string{"upper", "lower", "trim", "len", "string", "escape", "default('d')", "default(t)", "default(missing)", "nosuch", "upper(1)", "default", "upper()"}
+	segs := []string{"upper", "lower", "trim", "len", "string", "escape", "default('d')", "default(t)", "default(missing)", "default('')", "default(\"s\")", "default('t')", "default(\"a, b\")", "nosuch", "upper(1)", "default", "upper()"}
 	np := 250
 	if r.Thorough() {
 		np = 4000
